@@ -114,14 +114,14 @@ theorem createFile_get (s : Store) (v : View) (parent : Ino) (name : Bytes) (per
 
 theorem openFile_ok (s : Store) (v : View) (vid : Nat) (p : Bytes) (flag perm : Nat) (s1 : Store) (h : Handle)
     (e : openFile s v vid p flag perm = (s1, .ok h)) :
-    h.name = p ∧ h.om = toOpenMode flag ∧ h.view = vid ∧
+    h.name = p ∧ h.om = toOpenMode flag ∧ h.view = vid ∧ h.pos = 0 ∧
       ∃ c, h.nd = some c ∧ (s1 = s ∨ ∃ m d nl id, s1.get c = some (.file m d nl id)) := by
   unfold openFile at e
   simp only [] at e
   repeat' split at e
   all_goals simp only [Prod.mk.injEq, reduceCtorEq, and_false, Except.ok.injEq] at e
   all_goals obtain ⟨rfl, rfl⟩ := e
-  all_goals refine ⟨rfl, rfl, rfl, _, rfl, ?_⟩
+  all_goals refine ⟨rfl, rfl, rfl, rfl, _, rfl, ?_⟩
   all_goals first
     | (left; rfl)
     | (right; exact createFile_get _ _ _ _ _)
@@ -136,10 +136,16 @@ theorem fileStep_write_err (s : Store) (v : View) (h : Handle) (b : Bytes) (e : 
 
 theorem fileStep_write_file_ok (s : Store) (v : View) (h : Handle) (b : Bytes) (c : Ino) (m : Meta) (d : Bytes)
     (nl : Int) (id : Nat) (hn : h.name.isEmpty = false) (hnd : h.nd = some c)
-    (hg : s.get c = some (.file m d nl id)) (hom : (h.om &&& omWrite == 0) = false) :
+    (hg : s.get c = some (.file m d nl id)) (hom : (h.om &&& omWrite == 0) = false)
+    (hsz : (if h.om &&& omAppend != 0 then d.length else h.pos.toNat) + b.length ≤ maxFileSize) :
     ∃ val, (fileStep s v h (.write b)).2.2.2 = .ok val := by
   simp only [fileStep, hn, hnd, hg, hom]
-  by_cases hb : b.isEmpty = true <;> simp [hb]
+  by_cases hb : b.isEmpty = true
+  · simp [hb]
+  · have hmax : ¬ (if h.om &&& omAppend != 0 then d.length else h.pos.toNat) + b.length > maxFileSize :=
+      Nat.not_lt.mpr hsz
+    simp only [hb, hmax, Bool.false_eq_true, if_false]
+    exact ⟨_, rfl⟩
 
 theorem isEmpty_false_of_ne_sc' {p : Bytes} (hp : p ≠ []) : p.isEmpty = false := by
   cases p with
@@ -154,6 +160,7 @@ theorem openFile_ok_ne (s : Store) (v : View) (vid : Nat) (p : Bytes) (flag perm
   simp [openFile] at e
 
 theorem writeFileV_err (st : FSState) (v : View) (vid : Nat) (p d : Bytes) (perm : Nat) (e : Err)
+    (hsz : d.length ≤ maxFileSize)
     (he : (writeFileV st v vid p d perm).2 = .err e) : (writeFileV st v vid p d perm).1 = st := by
   revert he
   unfold writeFileV
@@ -164,7 +171,7 @@ theorem writeFileV_err (st : FSState) (v : View) (vid : Nat) (p d : Bytes) (perm
     simp only [] at this
     subst this
     rfl
-  · obtain ⟨hn, hom, _, c, hnd, hs⟩ := openFile_ok _ _ _ _ _ _ _ _ h
+  · obtain ⟨hn, hom, _, hpos, c, hnd, hs⟩ := openFile_ok _ _ _ _ _ _ _ _ h
     have hp : p ≠ [] := openFile_ok_ne _ _ _ _ _ _ _ _ h
     simp only []
     rcases h2 : fileStep s1 v hd (.write d) with ⟨s2, a2, a3, o⟩
@@ -181,6 +188,9 @@ theorem writeFileV_err (st : FSState) (v : View) (vid : Nat) (p d : Bytes) (perm
     · rfl
     · obtain ⟨val, hv⟩ := fileStep_write_file_ok s2 v hd d c m dd nl id
         (by rw [hn]; exact isEmpty_false_of_ne_sc' hp) hnd hg (by rw [hom]; decide)
+        (by
+          have happ : (hd.om &&& omAppend != 0) = false := by rw [hom]; decide
+          rw [happ, hpos]; simpa using hsz)
       rw [h2] at hv
       simp at hv
 
@@ -209,10 +219,13 @@ theorem createTempV_err (st : FSState) (v : View) (vid : Nat) (dir pat rnd : Byt
     Exclusions: `removeAll` (removes what it can), handle operations (separate), `chdir` (the model re-binds the
     view, so the association list grows although every lookup is unchanged: see `step_chdir_failed`).
     `writeFile` on the empty path is no longer excluded: since the repair of `OpenFile` the empty name is refused
-    before anything is created or truncated (`StepCounter.writeFile_empty_refused`). -/
+    before anything is created or truncated (`StepCounter.writeFile_empty_refused`).
+    Since the file size limit: `writeFile` with more than `maxFileSize` bytes creates or truncates the file and THEN
+    fails with EINVAL in `Write`, so the data of a `writeFile` call is assumed to fit (`hw`). -/
 theorem step_failed_unchanged (st : FSState) (vid : Nat) (c : Call) (e : Err) (h : (step st vid c).2 = .err e)
     (hc : ∀ p, c ≠ .removeAll p) (hf : ∀ hid op, c ≠ .file hid op)
-    (hcd : ∀ p, c ≠ .chdir p) : (step st vid c).1 = st := by
+    (hcd : ∀ p, c ≠ .chdir p)
+    (hw : ∀ p d perm, c = .writeFile p d perm → d.length ≤ maxFileSize) : (step st vid c).1 = st := by
   cases hv : st.view vid with
   | none => rw [step_none _ _ _ hv]
   | some v =>
@@ -241,7 +254,7 @@ theorem step_failed_unchanged (st : FSState) (vid : Nat) (c : Call) (e : Err) (h
     case lstat => exact withStore_fst_eq _ _ (stat_store _ _ _ _)
     case readlink => exact withStore_fst_eq _ _ (readlink_store _ _ _)
     case evalSymlinks => exact withStore_fst_eq _ _ (evalSymlinks_store _ _ _)
-    case writeFile p d perm => exact writeFileV_err _ _ _ _ _ _ _ h
+    case writeFile p d perm => exact writeFileV_err _ _ _ _ _ _ _ (hw p d perm rfl) h
     case mkdirTemp => exact mkdirTempV_err _ _ _ _ _ _ h
     case createTemp => exact createTempV_err _ _ _ _ _ _ _ h
     case sub p =>
@@ -319,7 +332,8 @@ theorem step_file_failed (st : FSState) (vid hid : Nat) (op : FOp) (e : Err)
 
 /-- C05 without the `chdir` exclusion: nothing observable changes (heap, handles, counters, every view lookup) -/
 theorem step_failed_observe (st : FSState) (vid : Nat) (c : Call) (e : Err) (h : (step st vid c).2 = .err e)
-    (hc : ∀ p, c ≠ .removeAll p) (hf : ∀ hid op, c ≠ .file hid op) :
+    (hc : ∀ p, c ≠ .removeAll p) (hf : ∀ hid op, c ≠ .file hid op)
+    (hw : ∀ p d perm, c = .writeFile p d perm → d.length ≤ maxFileSize) :
     (step st vid c).1.store = st.store ∧ (step st vid c).1.handles = st.handles ∧
     (step st vid c).1.nextView = st.nextView ∧ (step st vid c).1.nextHandle = st.nextHandle ∧
     ∀ w, (step st vid c).1.view w = st.view w := by
@@ -327,7 +341,7 @@ theorem step_failed_observe (st : FSState) (vid : Nat) (c : Call) (e : Err) (h :
   · obtain ⟨p, rfl⟩ := hcd
     exact step_chdir_failed st vid p e h
   · have hcd' : ∀ p, c ≠ .chdir p := fun p hp => hcd ⟨p, hp⟩
-    rw [step_failed_unchanged st vid c e h hc hf hcd']
+    rw [step_failed_unchanged st vid c e h hc hf hcd' hw]
     exact ⟨rfl, rfl, rfl, rfl, fun _ => rfl⟩
 
 end Avfs.FS
